@@ -117,6 +117,13 @@ def multi_file_cases(ctx):
                                    "a/item.json": {"type": "object", "properties": {"n": {"type": "integer", "minimum": 1}}},
                                    "b/item.json": {"type": "object", "properties": {"leaf": {"$ref": "../leaf.json"}, "m": {"type": "string", "minLength": 1}}},
                                    "leaf.json": leaf}, "s.json", []))
+    # same-named, different definitions in two files of one package; the second file is reached through two spellings of its path
+    ia = {"description": "a", "$defs": {"Item": {"type": "object", "properties": {"s": {"type": "string", "minLength": 2}}, "required": ["s"]}}}
+    ib = {"description": "b", "$defs": {"Item": {"type": "object", "properties": {"n": {"type": "integer", "minimum": 1}}, "required": ["n"]}}}
+    ic = {"type": "object", "properties": {"z": {"$ref": "../b.json#/$defs/Item"}, "w": {"$ref": "../a.json#/$defs/Item"}}}
+    out.append(("same-name-two-files", {"s.json": {"$id": "http://x/main", "type": "object",
+                                                   "properties": {"a": {"$ref": "a.json#/$defs/Item"}, "b": {"$ref": "b.json#/$defs/Item"}, "c": {"$ref": "sub/c.json"}}},
+                                        "a.json": ia, "b.json": ib, "sub/c.json": ic}, "s.json", []))
     out.append(("parent-dir", {"s.json": top, "sub/mid.json": mid, "leaf.json": leaf}, "s.json", []))
     return out
 
